@@ -9,7 +9,9 @@ Tie     (T) anchored reader of pipeline/mod.rs: is the thorough pass restricted 
         compared with the model driver `pipedata invalidate`.
 Oracle  independent of the model, from the harness's own edit log and the property text: steps that must run (own
         dependency with a content change not yet seen by a fully successful run, transitively through step / output
-        edges, unless never or blocked by a failed step) and steps that may run (those + always / dependency-less steps).
+        edges, unless never or blocked by a failed step) and steps that may run (those + always / dependency-less steps);
+        while a watched file is away no verdict on the steps watching it; `pipeline run` never edits the pipeline
+        definition (`pipeline export` before / after every run: steps, commands, set of dependencies of each step).
 """
 import hashlib, json, os, re, time
 from common import Check, run_lines, REPO, VERIF
@@ -33,6 +35,7 @@ class Res:
         self.kind, self.rid, self.watchers = kind, rid, []
         self.n = 0                       # edit counter (new contents differ in size)
         self.fresh = set()               # glob members added since the last run that recorded (removing one of them would be no change at all)
+        self.absent = False              # the watched file / directory is moved away (op 'vanish') until op 'return'
 
     # -- creation --------------------------------------------------------------------------------
     def create(self, sb, clock):
@@ -82,6 +85,7 @@ class Res:
     # -- edits -----------------------------------------------------------------------------------
     def ops(self):
         k = self.kind
+        if self.absent: return ['return']            # nothing to edit while it is away ('vanish' itself is planned by gen_history: F5)
         if k == 'file': return ['edit', 'touch', 'edit-same-size']
         if k == 'globdir':
             old = [m for m in self.members if m not in self.fresh]
@@ -98,6 +102,10 @@ class Res:
         self.n += 1
         k, ev = self.kind, []
         tag = f'v{self.n}' + 'x' * self.n            # sizes grow: "an edit changes size or mtime"
+        if op in ('vanish', 'return'):
+            return self._move(sb, op, clock, tag)
+        if self.absent:
+            return []
         if k == 'file' and op == 'edit-same-size':
             # other content of exactly the same length, modification time in the SAME second (only the nanoseconds differ):
             # size and whole-second mtime say "unchanged"
@@ -157,6 +165,37 @@ class Res:
                 else:
                     ev = [(d, 'edit' if word == sel else 'touch') for d, sel in self.watchers]
         return ev
+
+
+AWAY = '.away'       # where vanished files wait (watched by nothing, matched by no glob)
+
+
+def _res_move(self, sb, op, clock, tag):
+    """'vanish': the watched file (all members and the directory of a glob) is renamed out of the way - content and mtime
+    travel with it; 'return': renamed back to where it was.  For a file-like resource the watchers get 'vanish' / 'return'
+    (absence is a state of its own: the property does not say what a run has to do while the file is away).  A vanished glob
+    directory is an ordinary content change (no member left: 'rm'); it comes back with one member more ('add'), so that what
+    comes back is never the collection some earlier, unrecorded run has already seen."""
+    if (op == 'vanish') == self.absent:
+        return []
+    if self.kind == 'globdir':
+        here, there = sb.path(f'g{self.rid}'), sb.path(f'{AWAY}/g{self.rid}')
+    else:
+        here, there = sb.path(self.path), sb.path(f'{AWAY}/{self.path}')
+    if op == 'vanish':
+        os.makedirs(os.path.dirname(there), exist_ok=True)
+        os.rename(here, there)
+        self.absent = True
+        return [(d, 'rm' if self.kind == 'globdir' else 'vanish') for d, _ in self.watchers]
+    os.rename(there, here)
+    self.absent = False
+    if self.kind == 'globdir':
+        p = f'g{self.rid}/n{self.n}.dat'; self.members[p] = f'new {tag}\n'; sb.write(p, self.members[p]); clock.stamp(sb, p); self.fresh.add(p)
+        return [(d, 'add') for d, _ in self.watchers]
+    return [(d, 'return') for d, _ in self.watchers]
+
+
+Res._move = _res_move
 
 
 class Clock:
@@ -253,11 +292,17 @@ def descendants(steps, i):
 
 
 def failable(steps, i):
-    """may step i fail without building the F5 situation (a step with one done and one broken dependency step)?
-    Simulates the states below i: a step whose dependency steps are all broken is broken, unless it is an always-like
-    step (ignore_broken_dep_steps), which runs and is done."""
-    broken = {i}
-    for t in range(i + 1, len(steps)):
+    """may step i (or every step of the set i) end broken without building the F5 situation (a step with one done and one
+    broken dependency step)?  Simulates the states below: a step whose dependency steps are all broken is broken, unless it
+    is an always-like step (ignore_broken_dep_steps), which runs and is done."""
+    broken = set(i) if isinstance(i, (set, list, tuple)) else {i}
+    for t in range(min(broken) + 1 if broken else 0, len(steps)):
+        if t in broken:
+            ups = steps[t]['explicit'] + steps[t]['implicit']
+            nb = sum(1 for u in set(ups) if u in broken)
+            if 0 < nb < len(set(ups)):
+                return False
+            continue
         ups = steps[t]['explicit'] + steps[t]['implicit']
         nb = sum(1 for u in ups if u in broken)
         if nb == 0:
@@ -286,6 +331,45 @@ def gen_history(rng, pl, nrounds):
                 edits.append((res.rid, None))       # op chosen at execution time (depends on the resource's state)
         fail = rng.choice(cands) if cands and rng.random() < 0.22 else None
         rounds.append((edits, fail))
+    return rounds
+
+
+def vanishable(pl):
+    """resources that may be absent during a run: the steps that watch them (and are not `never`) then end broken, all at
+    once, which must not build F5; a vanished glob directory breaks nothing (it is an empty collection)"""
+    out = []
+    for r in pl['res']:
+        owners = {d['step'] for d in pl['deps'] if d['res'] == r.rid and pl['steps'][d['step']]['mode'] != 'n'}
+        if r.kind == 'globdir' or not owners or failable(pl['steps'], owners):
+            out.append(r.rid)
+    return out
+
+
+def gen_vanish_history(rng, pl, nrounds):
+    """the watched resource vanishes for one or more runs and comes back:
+    first run(s) record; `vanish` + 1-2 runs while it is away (other resources may be edited meanwhile, no command fails:
+    F5); `return` alone (same bytes, same mtime) / + touch / + an edit of its selected or unselected content (the op is drawn
+    when the history is played); then further edits of the same resource ("for good") and of others."""
+    cands = vanishable(pl)
+    if not cands:
+        return None
+    rid = rng.choice(cands)
+    others = [r.rid for r in pl['res'] if r.rid != rid]
+    some = lambda k: [(rng.choice(others), None) for _ in range(k)] if others else []
+    rounds = [([], None)]
+    if rng.random() < 0.4:
+        rounds.append((some(rng.choice([0, 1])), None))
+    away = rng.choice([1, 1, 2])
+    rounds.append(([(rid, 'vanish')] + some(rng.choice([0, 0, 1])), None))
+    for _ in range(away - 1):
+        rounds.append((some(rng.choice([0, 1])), None))
+    back = [(rid, 'return')] + [(rid, None)] * rng.choice([0, 1, 1, 1, 2])
+    rounds.append((back + some(rng.choice([0, 0, 1])), None))
+    fcands = [i for i in range(len(pl['steps'])) if failable(pl['steps'], i) and pl['steps'][i]['mode'] != 'n']
+    while len(rounds) < max(nrounds, away + 4):
+        k = rng.choice([0, 1, 1, 2])
+        edits = [((rid if rng.random() < 0.6 else rng.choice([r.rid for r in pl['res']])), None) for _ in range(k)]
+        rounds.append((edits, rng.choice(fcands) if fcands and rng.random() < 0.12 else None))
     return rounds
 
 
@@ -328,6 +412,8 @@ def run_case(xvc, base, case, rng_seed):
             rc, out, err = sb.x(*(P + ['step', 'dependency', '-s', s['name']] + a)); obs['build'].append(rc)
         if s['out']:
             rc, out, err = sb.x(*(P + ['step', 'output', '-s', s['name'], '--output-file', s['out']])); obs['build'].append(rc)
+    defn = definition(sb, P)
+    obs['definition'] = defn
     for edits, fail in rounds:
         applied = []
         for rid, op in edits:
@@ -350,11 +436,55 @@ def run_case(xvc, base, case, rng_seed):
         if rc == 124:
             obs['hang'] = True
             break
-        if rc == 0 and (fail is None or fail not in executed):
+        after = definition(sb, P)
+        if after != defn:
+            obs['rounds'][-1]['definition_changed'] = definition_diff(defn, after)
+            defn = after
+        if rc == 0 and (fail is None or fail not in executed) and not any(r.absent and r.kind != 'globdir' for r in pl['res']):
             for r in pl['res']:
                 r.fresh = set()         # the run recorded what it saw: members added before it are old members now
     sb.cleanup()
     return obs
+
+
+ID_KEYS = ('path', 'glob', 'begin', 'end', 'regex', 'format', 'key', 'generic_command', 'name', 'url', 'query')
+
+
+def definition(sb, P):
+    """the pipeline definition as `xvc pipeline export` shows it, without what a run is there to refresh (digests, metadata,
+    recorded values): per step its command, invalidation mode, outputs and the set of dependencies (kind + what identifies
+    the watched thing).  Only `step new/update/dependency/output`, `import`, `delete` edit it; `run` never does."""
+    rel = 'definition.json'
+    try: os.unlink(sb.path(rel))
+    except OSError: pass
+    rc, out, err = sb.x(*(P + ['export', '--file', rel]))
+    try:
+        doc = json.loads(sb.read(rel) or b'')
+        os.unlink(sb.path(rel))
+    except (ValueError, OSError):
+        return {'error': f'export failed rc={rc}: {(out + err)[-200:]}'}
+    d = {}
+    for s in doc.get('steps', []):
+        deps = sorted(json.dumps([k, {a: b for a, b in v.items() if a in ID_KEYS}], sort_keys=True)
+                      for dep in s.get('dependencies', []) for k, v in dep.items())
+        d[s.get('name')] = {'command': s.get('command'), 'invalidate': s.get('invalidate'), 'dependencies': deps,
+                            'outputs': sorted(json.dumps(o, sort_keys=True) for o in s.get('outputs', []))}
+    return d
+
+
+def definition_diff(a, b):
+    out = []
+    for name in sorted(set(a) | set(b)):
+        x, y = a.get(name), b.get(name)
+        if x == y: continue
+        if not isinstance(x, dict) or not isinstance(y, dict):
+            out.append({'step': name, 'what': 'step removed' if y is None else ('step added' if x is None else 'export failed')}); continue
+        for key in ('command', 'invalidate', 'outputs', 'dependencies'):
+            if x.get(key) != y.get(key):
+                lost = [e for e in (x.get(key) or []) if e not in (y.get(key) or [])] if isinstance(x.get(key), list) else x.get(key)
+                new = [e for e in (y.get(key) or []) if e not in (x.get(key) or [])] if isinstance(y.get(key), list) else y.get(key)
+                out.append({'step': name, 'field': key, 'lost': lost, 'new': new})
+    return out
 
 
 # ------------------------------------------------------------------------------------------------
@@ -390,25 +520,39 @@ def oracle(case, obs):
     always_like = [s['mode'] == 'a' or (s['mode'] == 'd' and not s['deps'] and not s['explicit']) for s in steps]
     pending = {d['id'] for d in deps}              # content not yet seen by a fully successful run
     touched = set()                                # metadata changed since then, content not
+    absent = set()                                 # the watched resource is away
+    maybe = set()                                  # content seen by an execution in a run of which the property does not say whether it counts
+    ran_away = set()                               # absent dependencies whose step was executed while they were away
     out = []
-    clean = False                                  # previous run fully successful and nothing edited since
     for ri, r in enumerate(obs['rounds']):
         real_this_round = set()
         for e in r['edits']:
             for d, kind in e['events']:
                 if kind in ('edit', 'add', 'rm', 'param'):
-                    pending.add(d); real_this_round.add(d); touched.discard(d)
+                    pending.add(d); real_this_round.add(d); touched.discard(d); maybe.discard(d)
+                elif kind == 'vanish':
+                    absent.add(d)
+                elif kind == 'return':
+                    absent.discard(d)
+                    if d in ran_away and d not in pending:
+                        maybe.add(d)           # its step has been executed without it: running again for what came back is allowed, not demanded
+                    ran_away.discard(d)
                 elif d not in pending:
                     touched.add(d)
-        edited = bool(r['edits'])
         ex = set(r['executed'])
         failed = {r['fail']} & ex if r['fail'] is not None else set()
         up = lambda i: steps[i]['explicit'] + steps[i]['implicit']
-        blocked, must = [False] * n, [False] * n
+        blocked, must, undet = [False] * n, [False] * n, [False] * n
+        away = [steps[i]['mode'] != 'n' and any(d in absent for d in steps[i]['deps']) for i in range(n)]
         for i in range(n):
             blocked[i] = any(u in failed or blocked[u] for u in up(i))
             own = any(d in pending for d in steps[i]['deps'])
-            must[i] = steps[i]['mode'] != 'n' and not blocked[i] and (own or any(must[u] and u not in failed for u in up(i)))
+            # The property is silent about a run during which a watched file is away (the unchanged tree ends such a step
+            # broken and its dependents with it; executing it is not forbidden either), and about steps whose last execution
+            # happened in such a run: no verdict on them and on everything below them.
+            undet[i] = away[i] or any(undet[u] for u in up(i)) or \
+                (steps[i]['mode'] != 'n' and not own and any(d in maybe for d in steps[i]['deps']))
+            must[i] = steps[i]['mode'] != 'n' and not blocked[i] and not undet[i] and (own or any(must[u] and u not in failed for u in up(i)))
         for i in range(n):
             if must[i] and i not in ex:
                 why = 'owns a changed dependency' if any(d in pending for d in steps[i]['deps']) else 'is downstream of a step that had to run'
@@ -416,7 +560,7 @@ def oracle(case, obs):
                             'signature': {'kind': 'missed-rerun', 'touched_own': any(d in touched for d in steps[i]['deps'])}})
             if i in ex and steps[i]['mode'] == 'n':
                 out.append({'round': ri, 'step': i, 'what': f'round {ri}: step s{i} is marked never but was executed', 'signature': {'kind': 'never-executed'}})
-            if i in ex and not must[i] and not always_like[i] and steps[i]['mode'] != 'n':
+            if i in ex and not must[i] and not undet[i] and not always_like[i] and steps[i]['mode'] != 'n':
                 # an executed step the property does not ask for; find the root of its execution (a step runs when a step it
                 # depends on ran) and classify that root for the known findings
                 root = i
@@ -438,16 +582,31 @@ def oracle(case, obs):
                             f'had to run{via} ({sig["cause"]}; executed: {sorted(ex)})', 'signature': sig})
         if r['twice']:
             out.append({'round': ri, 'step': -1, 'what': f'round {ri}: a step command ran twice in one run', 'signature': {'kind': 'ran-twice'}})
+        if r.get('definition_changed'):
+            # `pipeline run` does not edit the pipeline definition: the steps, their commands and the SET of dependencies of each
+            # step are what `step new / update / dependency / output` and `import` made them
+            ch = r['definition_changed']
+            out.append({'round': ri, 'step': -1, 'what': f'round {ri}: `pipeline run` changed the pipeline definition (export before / after the run): {json.dumps(ch)[:600]}',
+                        'signature': {'kind': 'run-edited-definition', 'fields': sorted({c.get('field', c.get('what')) for c in ch}),
+                                      'while_absent': bool(absent)}})
         if not failed and r['rc'] == 0 and not any(blocked):
-            for s in steps:
-                if s['mode'] != 'n':
-                    for d in s['deps']:
-                        pending.discard(d)
-                        if deps[d]['kind'] == 'glob':
-                            touched.discard(d)          # a glob digest is recorded anew when its metadata digest changed
-            clean = True
-        else:
-            clean = False
+            if not any(away):
+                for s in steps:
+                    if s['mode'] != 'n':
+                        for d in s['deps']:
+                            pending.discard(d); maybe.discard(d)
+                            if deps[d]['kind'] == 'glob':
+                                touched.discard(d)          # a glob digest is recorded anew when its metadata digest changed
+            else:
+                # a run with a watched file away: whether it counts as fully successful (and records) is not for the property to
+                # say; what an executed step has seen need not be acted on again, but may be
+                for i, s in enumerate(steps):
+                    if s['mode'] != 'n' and i in ex:
+                        for d in s['deps']:
+                            if d in absent:
+                                ran_away.add(d)
+                            elif d in pending:
+                                pending.discard(d); maybe.add(d)
     return out
 
 
@@ -504,6 +663,17 @@ def corpus():
                     [{'kind': 'param', 'res': 0, 'sel': 'k0', 'step': 0}, {'kind': 'lines', 'res': 1, 'sel': (0, 2), 'step': 1}, {'kind': 'regex', 'res': 2, 'sel': 'sel', 'step': 2}],
                     ['params', 'linesfile', 'regexfile'],
                     [([], None), ([(0, 'set:k0'), (2, 'line:0')], 0), ([], None), ([(0, 'set:k1'), (1, 'line:5'), (2, 'line:1')], None), ([], None)]))
+    # away and back: one step per file-like dependency kind, each next to a second dependency (a file nobody edits); every watched
+    # file is away for one run, comes back (same bytes and mtime), then its selected content is edited, twice
+    kinds = [('file', 'file', None), ('param', 'params', 'k0'), ('lines', 'linesfile', (0, 2)), ('line-items', 'linesfile', (0, 2)),
+             ('regex', 'regexfile', 'sel'), ('regex-items', 'regexfile', 'sel'), ('generic', 'gensrc', None)]
+    nk = len(kinds)
+    edit = {'file': 'edit', 'params': 'set:k0', 'linesfile': 'line:0', 'regexfile': 'line:0', 'gensrc': 'edit'}
+    cases.append(mk('awayback', [{'mode': 'd', 'deps': [2 * i, 2 * i + 1], 'explicit': []} for i in range(nk)],
+                    [x for i, (k, rk, sel) in enumerate(kinds) for x in ({'kind': k, 'res': i, 'sel': sel, 'step': i}, {'kind': 'file', 'res': nk, 'step': i})],
+                    [rk for _, rk, _ in kinds] + ['file'],
+                    [([], None), ([(i, 'vanish') for i in range(nk)], None), ([(i, 'return') for i in range(nk)], None),
+                     ([(i, edit[rk]) for i, (_, rk, _) in enumerate(kinds)], None), ([(i, edit[rk]) for i, (_, rk, _) in enumerate(kinds)], None)]))
     return cases
 
 
@@ -575,6 +745,14 @@ def evaluate(chk, xvc, model, cases, base, stream):
         pl = case['pl']
         for d in pl['deps']: chk.count('dep:' + d['kind'] + (':output-of-step' if d['res'] is None else ''))
         for s in pl['steps']: chk.count('mode:' + s['mode'])
+        kind_of = {d['id']: d['kind'] for d in pl['deps']}
+        nown = {d['id']: len(pl['steps'][d['step']]['deps']) + len(pl['steps'][d['step']]['explicit']) for d in pl['deps']}
+        for r in obs['rounds']:
+            for e in r['edits']:
+                if e['op'] == 'vanish':
+                    for d, _ in e['events']:
+                        chk.count(f'vanish:{kind_of[d]}:' + ('only-dependency-of-its-step' if nown[d] == 1 else 'next-to-other-dependencies'))
+            if r.get('definition_changed'): chk.count('run:definition-changed')
         chk.count('steps:%d' % len(pl['steps']))
         for r in obs['rounds']:
             chk.count('run:' + ('with-failure' if r['fail'] is not None and r['fail'] in r['executed'] else 'ok') + (':no-edit' if not r['edits'] else ''))
@@ -684,7 +862,7 @@ def report(chk, stream, bad, xvc=None, model=None, base=None):
 
 def run(chk: Check):
     quick = chk.tier == 'quick'
-    model = chk.lean('XvcPipeData', 'XvcPipeData.Props.C12', exe='pipedata', extra_modules=['XvcPipeData.Invalidate', 'XvcPipeData.InvalidateLemmas'])
+    model = chk.lean('XvcPipeData', 'XvcPipeData.Props.C12', exe='pipedata', extra_modules=['XvcPipeData.Invalidate', 'XvcPipeData.InvalidateLemmas', 'XvcPipeData.InvalidateStore'])
     model = model if model and os.path.exists(model) else None
     xvc = chk.build_xvc()
     pc.load_proposed(chk, PROPOSED_FINDINGS)
@@ -699,7 +877,8 @@ def run(chk: Check):
     chk.assumptions += [
         'an edit changes size or mtime (EditsVisible; the harness grows sizes and sets strictly increasing explicit mtimes)',
         'XvcPathMetadataProvider: metadata is read freshly at the start of every `pipeline run` process; files produced DURING a run are read through the inotify-fed cache, the harness lets producing steps sleep 0.25 s (settle delay); a stale read there would make the recorded metadata stale (residual, level partial)',
-        'no generated run contains a step with one done and one broken dependency step (F5) or a missing dependency file (K4b); the process pool is left at its default (F6)',
+        'no generated run contains a step with one done and one broken dependency step (F5: resources vanish only where the steps watching them may all end broken at once); an output file is never missing when its consumer is compared (K4b); the process pool is left at its default (F6)',
+        'a run during which a watched file is away: the oracle gives no verdict on the steps watching it, on the steps below them, and (until the next fully successful run) on steps executed in that run; it demands that the run leaves the pipeline definition alone and that changes made after the return are acted on',
         'outputs of steps are written with constant content, so a file dependency on an output is only "touched" by its producer',
         'pipelines with both a --glob (digest) dependency and an output-file edge are not generated: graph construction caches "missing" for the not yet existing output (glob_includes -> path_present) and the consumer then races with the inotify event (inotify residual; observed once under load as consumer threads dying with PathNotFound)',
     ]
@@ -708,16 +887,22 @@ def run(chk: Check):
                          'the oracle below searches for the failing history')
     base = os.path.join(chk.scratch, 'repos'); os.makedirs(base, exist_ok=True)
     ncases, nrounds = (120, (3, 5)) if quick else (1200, (3, 7))
-    chk.extra['rule'] = (f'corpus (5 fixed histories: F7a, F7b, F7c, glob-digest vs glob-items under touch, failed run keeps the change) + {ncases} generated pipelines '
+    chk.extra['rule'] = (f'corpus (6 fixed histories: F7a, F7b, F7c, glob-digest vs glob-items under touch, failed run keeps the change, every file-like dependency kind away for one run and back) + {ncases} generated pipelines '
                          f'(2-6 steps in a random DAG of --step edges and output-file edges; modes by_dependencies/always/never; 0-3 dependencies per step over the kinds {KINDS}, '
                          'some sharing a file through different keys / line ranges / patterns) each with a history of '
                          f'{nrounds[0]}-{nrounds[1]} runs interleaved with 0-3 edits (content edit, touch, add/remove glob member, set this / another parameter, edit a selected / '
-                         'unselected line, edit / touch the source of a generic command) and, in ~22% of the runs, a failing step. Non-trivial: a history with an edit after which '
+                         'unselected line, edit / touch the source of a generic command) and, in ~22% of the runs, a failing step; 2 of 5 histories are of the family '
+                         '"a watched file / parameter file / command source / glob directory is moved away for 1-2 runs and moved back (same bytes and mtime), alone or followed by '
+                         'a touch / an edit of selected or unselected content, then edited further", for every dependency kind, as the only dependency of its step and next to others, '
+                         'with and without steps above / below; after every run `pipeline export` is compared with the export before it (steps, commands, modes, outputs, set of '
+                         'dependencies). Non-trivial: a history with an edit after which '
                          'a run executes a proper non-empty subset of the steps; distinct by pipeline+history.')
     cases = []
     for i in range(ncases):
         pl = gen_pipeline(chk.rng, i)
-        cases.append({'pl': pl, 'rounds': gen_history(chk.rng, pl, chk.rng.randint(*nrounds))})
+        rounds = gen_vanish_history(chk.rng, pl, chk.rng.randint(*nrounds)) if i % 5 in (1, 3) else None
+        chk.count('history:' + ('a-watched-resource-vanishes-and-returns' if rounds else 'edits-and-failures'))
+        cases.append({'pl': pl, 'rounds': rounds or gen_history(chk.rng, pl, chk.rng.randint(*nrounds))})
     bad = evaluate(chk, xvc, model, corpus(), base, 'corpus')
     report(chk, 'corpus', bad, xvc, model, base)
     for i in range(0, len(cases), 64):
